@@ -113,11 +113,12 @@ def sec (n : Nat) : Nat := n * 1000000000
 def runU1 : List Action := [.deliverJob, .work, .deliverJob, .deliverPod, .deliverPod]
 def u1 : Sys := runActs u0 runU1
 def podU (s : Sys) (n : String) : PodObj := (findPod s.pods n).getD default
-/-- both first attempts fail (a-0 at 0 s, b-0 at 5 s), are recorded; at 10 s the retry a-1 is due
+/-- both first attempts fail (a-0 at 0 s — its pod does not tell when, the pass that observes it at
+0 s records its own clock (F30 repaired) —, b-0 at 5 s), are recorded; at 10 s the retry a-1 is due
 (b-1 only at 15 s), created and recorded -/
 def runU2 : List Action :=
-  [.kubelet (withPhase (podU u1 "job-a-0") .failed), .advance (sec 5),
-   .kubelet (withPhase (podU u1 "job-b-0") .failed (some (secs 5))), .deliverPod, .deliverPod, .work, .deliverJob,
+  [.kubelet (withPhase (podU u1 "job-a-0") .failed), .deliverPod, .work, .deliverJob, .advance (sec 5),
+   .kubelet (withPhase (podU u1 "job-b-0") .failed (some (secs 5))), .deliverPod, .work, .deliverJob,
    .advance (sec 5), .work, .deliverJob]
 def u2 : Sys := runActs u1 runU2
 /-- a-1 succeeds and vanishes before any of its events is delivered; the pass records it lost:
